@@ -85,6 +85,8 @@ def forbidden_scan():
                 if path.endswith("Main.lean") and re.search(r"\bpartial def loop\b", line):
                     continue
                 hits.append(f"{os.path.relpath(path, LEAN)}:{i}: {line.strip()}")
+            if re.search(r"\bpartial\s+def\b", line) and not (path.endswith("Main.lean") or os.sep + "Driver" + os.sep in path):
+                hits.append(f"{os.path.relpath(path, LEAN)}:{i}: {line.strip()}")
     return hits
 
 
